@@ -46,7 +46,7 @@ void harness(void) {
 #ifdef C0_LO /* start column restricted to a class to keep instances small */
   VP_ASSUME(in_c0 >= C0_LO && in_c0 <= C0_HI);
 #endif
-#ifdef VP_NATIVE
+#if defined(VP_NATIVE) || defined(VP_ASSERT_MODE)
   rci_t rr = 0, cc = 0, *pr = &rr, *pc = &cc;
 #else
   rci_t *pr, *pc;
